@@ -93,8 +93,9 @@ where
 
     fn start_send(mut self: Pin<&mut Self>, item: Item) -> Result<(), Self::Error> {
         let mut idx = 0;
-        let len = self.entries.len();
-        while idx < len {
+        while idx < self.entries.len() {
+            // Evictions below shrink the list, so the length is re-read on every iteration
+            let len = self.entries.len();
             let (_, sink) = self.entries[idx].borrow_mut();
             pin!(sink);
             if idx == len - 1 {
